@@ -7,6 +7,7 @@ from vlib import chload
 drf = chload.load()
 import digital_rf.mirror as MIR
 import digital_rf.list_drf as L
+chload.warm(MIR.DigitalRFMirrorHandler)
 
 
 class SymFS:
